@@ -54,7 +54,7 @@ def run(ctx):
             lines.append(line)
             metas.append(m)
             cid += 1
-    res2 = ctx.component('K-E2E', lines)
+    res2 = ctx.component('K-E2E(library result for K-WRITE, implementation only)', lines, model=False)
     stats = {}
     if res2:
         stats = cli.run_and_compare(ctx, ctx.bdir, metas, res2['impl'])
